@@ -140,7 +140,8 @@ model(
 )
 QUEUE = Inst('bumble.host:DataPacketQueue')
 # ghost.h: a fixed but arbitrary connection handle (clauses mentioning it hold for every handle)
-Q_GHOST = dict(sent=ListOf(Opaque('pkt')), flows=Int, h=Int)
+# ghost.g: a second fixed but arbitrary connection handle, used by the drained invariant
+Q_GHOST = dict(sent=ListOf(Opaque('pkt')), flows=Int, h=Int, g=IntRange(0, 0xFFFF))
 
 
 def credits_ok(self):
@@ -155,6 +156,13 @@ def no_stall(self):
 
 def wf_queue(self):
     return [credits_ok(self), no_stall(self)]
+
+
+def drained_inv(self, ghost):
+    """a waiter in drain(g) is released exactly when connection g has nothing in flight: for every
+    connection the queue knows, its `drained` event is set iff its in-flight count is 0 (ghost.g is arbitrary)"""
+    cs = self._connection_state
+    return implies(mhas(cs, ghost.g), mget(cs, ghost.g, 'in_flight') >= 0 and iff(mget(cs, ghost.g, 'drained'), mget(cs, ghost.g, 'in_flight') == 0))
 
 
 def pkts(entries):
@@ -184,15 +192,16 @@ def state_step(self, D, old, ghost):
 CHECK_Q = dict(
     params=dict(self=QUEUE),
     ghost=Q_GHOST,
-    requires=lambda self: credits_ok(self),
+    requires=lambda self, ghost: [credits_ok(self), drained_inv(self, ghost)],
     ensures=lambda self, old, ghost: [
         credits_ok(self),
         no_stall(self),
         len(ghost.sent) - len(old.ghost.sent) == self._in_flight - old.self._in_flight,
     ]
     + fifo_step(self, list(old.self._packets), old, ghost)
-    + state_step(self, list(old.self._packets), old, ghost),
-    ensures_names=['credits', 'no-stall', 'one-credit-per-packet', 'k>=0', 'k<=n', 'rest-waits-in-order', 'sent-oldest-first-exactly-once', 'state-only-for-sending-connections'],
+    + state_step(self, list(old.self._packets), old, ghost)
+    + [drained_inv(self, ghost)],
+    ensures_names=['credits', 'no-stall', 'one-credit-per-packet', 'k>=0', 'k<=n', 'rest-waits-in-order', 'sent-oldest-first-exactly-once', 'state-only-for-sending-connections', 'drained-iff-nothing-in-flight'],
     modifies=['self._in_flight', 'self._packets', 'self._connection_state', 'ghost.sent'],
 )
 
@@ -206,6 +215,7 @@ contract(
         ]
         + fifo_step(self, list(old.self._packets), old, ghost)
         + state_step(self, list(old.self._packets), old, ghost)
+        + [drained_inv(self, ghost)]
     },
     decreases={0: lambda self: len(self._packets)},
     **CHECK_Q,
@@ -219,11 +229,12 @@ contract(
     prop='C04',
     params=dict(self=QUEUE, packet=Opaque('pkt'), connection_handle=IntRange(0, 0xFFFF)),
     ghost=Q_GHOST,
-    requires=lambda self: wf_queue(self),
+    requires=lambda self, ghost: wf_queue(self) + [drained_inv(self, ghost)],
     ensures=lambda self, packet, connection_handle, old, ghost: wf_queue(self)
     + [self._queued == old.self._queued + 1]
-    + fifo_step(self, [(packet, connection_handle)] + list(old.self._packets), old, ghost),
-    ensures_names=['credits', 'no-stall', 'queued-count', 'k>=0', 'k<=n', 'rest-waits-in-order', 'sent-oldest-first-exactly-once'],
+    + fifo_step(self, [(packet, connection_handle)] + list(old.self._packets), old, ghost)
+    + [drained_inv(self, ghost)],
+    ensures_names=['credits', 'no-stall', 'queued-count', 'k>=0', 'k<=n', 'rest-waits-in-order', 'sent-oldest-first-exactly-once', 'drained-iff-nothing-in-flight'],
     modifies=['self._in_flight', 'self._packets', 'self._connection_state', 'self._queued', 'ghost.sent'],
     uses=USE_CHECK,
 )
@@ -233,7 +244,7 @@ contract(
     prop='C04',
     params=dict(self=QUEUE, packet_count=IntRange(0, 0xFFFF), connection_handle=IntRange(0, 0xFFFF)),
     ghost=Q_GHOST,
-    requires=lambda self: wf_queue(self),
+    requires=lambda self, ghost: wf_queue(self) + [drained_inv(self, ghost)],
     # any count (over-reports included) and any handle (unknown ones included) keep the invariant
     ensures=lambda self, packet_count, connection_handle, old, ghost: wf_queue(self)
     + fifo_step(self, list(old.self._packets), old, ghost)
@@ -241,8 +252,10 @@ contract(
         ghost.flows == old.ghost.flows + (1 if mhas(old.self._connection_state, connection_handle) else 0),
         # a report for an unknown connection changes nothing
         implies(not mhas(old.self._connection_state, connection_handle), self._in_flight == old.self._in_flight and len(ghost.sent) == len(old.ghost.sent)),
+        # waiting for a connection to drain finishes as soon as its packets have been completed (over-reports included)
+        drained_inv(self, ghost),
     ],
-    ensures_names=['credits', 'no-stall', 'k>=0', 'k<=n', 'rest-waits-in-order', 'sent-oldest-first-exactly-once', 'flow-event', 'unknown-handle-ignored'],
+    ensures_names=['credits', 'no-stall', 'k>=0', 'k<=n', 'rest-waits-in-order', 'sent-oldest-first-exactly-once', 'flow-event', 'unknown-handle-ignored', 'drained-iff-nothing-in-flight'],
     modifies=['self._in_flight', 'self._packets', 'self._connection_state', 'self._completed', 'ghost.sent', 'ghost.flows'],
     uses=USE_CHECK,
 )
@@ -257,7 +270,7 @@ contract(
     prop='C04',
     params=dict(self=QUEUE, connection_handle=IntRange(0, 0xFFFF)),
     ghost=Q_GHOST,
-    requires=lambda self, connection_handle, ghost: wf_queue(self) + [ghost.h == connection_handle] + [forall(0, 65536, lambda h: implies(mhas(self._connection_state, h), 0 <= mget(self._connection_state, h, 'in_flight') and mget(self._connection_state, h, 'in_flight') <= self._in_flight))],
+    requires=lambda self, connection_handle, ghost: wf_queue(self) + [drained_inv(self, ghost)] + [ghost.h == connection_handle] + [forall(0, 65536, lambda h: implies(mhas(self._connection_state, h), 0 <= mget(self._connection_state, h, 'in_flight') and mget(self._connection_state, h, 'in_flight') <= self._in_flight))],
     ensures=lambda self, connection_handle, old, ghost: [
         credits_ok(self),
         # right after another connection's packets were discarded, nothing waits while a buffer is free
@@ -266,8 +279,9 @@ contract(
         forall(0, len(self._packets), lambda i: self._packets[i][1] != connection_handle),
         not mhas(self._connection_state, connection_handle),
     ]
-    + fifo_step(self, keep_others(list(old.self._packets), connection_handle), old, ghost),
-    ensures_names=['credits', 'no-stall-after-flush', 'no-packet-of-closed-connection', 'state-forgotten', 'k>=0', 'k<=n', 'rest-waits-in-order', 'sent-oldest-first-exactly-once'],
+    + fifo_step(self, keep_others(list(old.self._packets), connection_handle), old, ghost)
+    + [drained_inv(self, ghost)],
+    ensures_names=['credits', 'no-stall-after-flush', 'no-packet-of-closed-connection', 'state-forgotten', 'k>=0', 'k<=n', 'rest-waits-in-order', 'sent-oldest-first-exactly-once', 'drained-iff-nothing-in-flight'],
     modifies=['self._in_flight', 'self._packets', 'self._connection_state', 'self._completed', 'ghost.sent'],
     uses=USE_CHECK,
 )
@@ -287,3 +301,69 @@ contract(
 )
 
 
+
+
+# ---------------------------------------------------------------------------
+# Host.on_hci_number_of_completed_packets_event: every (handle, count) entry of the event reaches the queue of that handle
+# ---------------------------------------------------------------------------
+def h_lookup(ghost, connection_handle):
+    """recording stub for Host.get_data_packet_queue: one look-up per entry, in event order"""
+    assert ghost.pos < len(ghost.hs) and ghost.pos < len(ghost.ns)
+    assert connection_handle == ghost.hs[ghost.pos]
+    ghost.pos = ghost.pos + 1
+    ghost.reported = False
+    if connection_handle in ghost.queues:
+        ghost.expected = ghost.expected + 1
+        return ghost.q
+    return None
+
+
+def h_completed(ghost, packet_count, connection_handle):
+    """recording stub for DataPacketQueue.on_packets_completed: the report is the entry just looked up, once"""
+    assert ghost.pos >= 1 and not ghost.reported
+    assert connection_handle == ghost.hs[ghost.pos - 1] and packet_count == ghost.ns[ghost.pos - 1]
+    assert connection_handle in ghost.queues
+    ghost.reported = True
+    ghost.calls = ghost.calls + 1
+
+
+model('ghost:Queue#c04host', fields={}, methods={'on_packets_completed': Callback('on_packets_completed', effect=h_completed)})
+model(
+    'bumble.host:Host#c04',
+    fields=dict(sco_links=MapOf(PCS)),
+    methods={'get_data_packet_queue': Callback('get_data_packet_queue', effect=h_lookup)},
+)
+model('bumble.hci:HCI_Number_Of_Completed_Packets_Event', fields=dict(connection_handles=ListOf(IntRange(0, 0xFFFF)), num_completed_packets=ListOf(IntRange(0, 0xFFFF))))
+
+
+def h_inv(ghost, n_done):
+    return [
+        0 <= n_done and n_done <= len(ghost.hs),
+        ghost.pos == n_done,
+        ghost.calls == ghost.expected,
+    ]
+
+
+contract(
+    'bumble.host:Host.on_hci_number_of_completed_packets_event',
+    prop='C04',
+    params=dict(self=Inst('bumble.host:Host#c04'), event=Inst('bumble.hci:HCI_Number_Of_Completed_Packets_Event')),
+    ghost=dict(hs=ListOf(Int), ns=ListOf(Int), pos=Int, expected=Int, calls=Int, reported=Bool, queues=MapOf(PCS), q=Inst('ghost:Queue#c04host')),
+    requires=lambda event, ghost: [
+        ghost.hs == list(event.connection_handles),
+        ghost.ns == list(event.num_completed_packets),
+        len(ghost.hs) == len(ghost.ns),
+        ghost.pos == 0,
+        ghost.expected == 0,
+        ghost.calls == 0,
+    ],
+    # every entry is looked up once, in order (h_lookup), each report is for the entry just looked up with its own
+    # count and goes to a connection that has a queue (h_completed), and as many reports were made as entries have a
+    # queue: an unknown or SCO handle in the middle of the event does not stop the later entries from being credited
+    ensures=lambda event, ghost: [ghost.pos == len(ghost.hs), ghost.calls == ghost.expected],
+    ensures_names=['every-entry-processed', 'every-entry-with-a-queue-reported-once'],
+    invariants={0: lambda ghost, _i: h_inv(ghost, _i)},
+    decreases={0: lambda ghost, _i: len(ghost.hs) - _i},
+    modifies=['ghost.pos', 'ghost.expected', 'ghost.calls', 'ghost.reported'],
+    note='Host.get_data_packet_queue (three table look-ups) and the queue are recording stubs here; the queue side is DataPacketQueue.on_packets_completed above',
+)
